@@ -3,6 +3,7 @@
   UnytProofs/Lemmas/C14Rows.lean, stated in UnytProofs/C14.lean).
 -/
 import UnytModel.C14Check
+import UnytProofs.Lemmas.C14Chunk07  -- build order only: at most four chunks are decided concurrently
 
 namespace Unyt.C14
 
@@ -21,5 +22,9 @@ theorem exclusions_chunk_11 : exclusionsChunkOk 11 = true := by decide +kernel
 theorem nonprefixable_slice_11_0 : nonprefixableSliceOk 11 0 = true := by decide +kernel
 theorem nonprefixable_slice_11_1 : nonprefixableSliceOk 11 1 = true := by decide +kernel
 theorem nonprefixable_slice_11_2 : nonprefixableSliceOk 11 2 = true := by decide +kernel
+
+/-- the body of `generate_name_alternatives`' outer loop, for the table keys number i ≡ 11 (mod 16),
+    started in the state the real generator had there, appends exactly what the real one appended -/
+theorem gen_chunk_11 : genChunkOk 11 = true := by decide +kernel
 
 end Unyt.C14
